@@ -76,7 +76,7 @@ func c03Table() []GuardReq {
 	att := "%T2%.Attestations[*]"
 	add(req("v2-attestation-signed", V2T, vh(att+".PublicKey", "call (consensus.State).AttestationSigHash(%ST%, "+att+")", att+".Signature"), opF, "", "every attestation is signed by its key"))
 	// ---- v2 Foundation update ----
-	r = req("v2-foundation:authorised", V2T, "%T2%.SiacoinInputs[*].Parent.SiacoinOutput.Address", opEQ, "%ST%.FoundationManagementAddress", "the Foundation address changes only when an input controlled by the current management address is spent", "%T2%.NewFoundationAddress != nil")
+	r = req("v2-foundation:authorised", V2T, "%T2%.SiacoinInputs[*].Parent.SiacoinOutput.Address", []string{"==", "!="}, "%ST%.FoundationManagementAddress", "the Foundation address changes only when an input controlled by the current management address is spent", "%T2%.NewFoundationAddress != nil")
 	r.Weak = true
 	add(r)
 	return t
